@@ -52,6 +52,6 @@ m = {
  "checks": checks,
  "not_applicable": [{"property_id": k, "reason": v} for k, v in NA.items()] + [
     {"property_id": c, "reason": "simulation target (see DESIGN.md); check not yet registered in this commit"} for c in INFO if c not in claimed],
- "notes": "See DESIGN.md. One genuine defect repaired so far (fix: commit 3cc6e1d in /repo, recorded in known_findings.json).",
+ "notes": "See DESIGN.md. Genuine defects found by the checks are repaired by unguarded 'fix:' commits in /repo (%d so far, each recorded as a 'fixed:' line in known_findings.json with its commit; DESIGN.md section 7.1); defects whose repair the pinned suite contradicts are listed under 'findings' in known_findings.json and printed as KNOWN-FINDING." % len(json.load(open("/verif/known_findings.json"))["fixed"]),
 }
 json.dump(m, open('/verif/MANIFEST.json','w'), indent=1)
